@@ -385,7 +385,10 @@ LEAF_POOLS = {
     "timedelta": [datetime.timedelta(0), datetime.timedelta(seconds=1), datetime.timedelta(days=7), datetime.timedelta(days=8, seconds=1),
                   datetime.timedelta(days=-1), datetime.timedelta(seconds=59, microseconds=999999), datetime.timedelta(days=400),
                   datetime.timedelta(hours=1, minutes=1), datetime.timedelta(microseconds=5), datetime.timedelta(days=14, hours=3),
-                  datetime.timedelta(days=-3, seconds=7)],
+                  datetime.timedelta(days=-3, seconds=7),
+                  # long durations (float arithmetic anywhere on the way loses their microseconds)
+                  datetime.timedelta(days=110000, hours=1, microseconds=1), datetime.timedelta(days=-202304, seconds=6103, microseconds=31295),
+                  datetime.timedelta.max],
     "NoneType": [None],
 }
 ENUM_MEMBERS = {"Color": ["RED", "BLUE"], "Level": ["LOW", "HIGH"], "Tag": ["A", "NUM"]}
